@@ -64,6 +64,13 @@ TPreamble ==
     /\ l' = l + 1
     /\ UNCHANGED <<cfg, ssl, inq, eof, faulted, stmts, portals, skip, hq, h, pend>>
 
+\* a direct call of the ErrorCode helper made by the harness
+TApi ==
+    /\ More /\ Ev.k = "x-errorcode" /\ pend = <<>>
+    /\ ApiErrorCode(Ev.isnil, Ev.err)
+    /\ pend' = emit'
+    /\ l' = l + 1
+
 \* a silent server step
 TServer ==
     /\ pend = <<>>
@@ -112,7 +119,7 @@ TFaultedClose ==
     /\ l' = l + 1
     /\ UNCHANGED <<cfg, ssl, mwi, cparams, inq, eof, faulted, stmts, portals, skip, hq, h, pend>>
 
-TNext == TReset \/ TPreamble \/ TSend \/ TEof \/ TLate \/ TServer \/ TMatch \/ TIdle
+TNext == TReset \/ TPreamble \/ TApi \/ TSend \/ TEof \/ TLate \/ TServer \/ TMatch \/ TIdle
          \/ TFault \/ TFaultedCb \/ TFaultedClose
 
 TSpec == TInit /\ [][TNext]_tvars
